@@ -128,6 +128,12 @@ theorem C06_reject_classes_operation_type (ts out : List Tok) (h : Derives gql (
     directives and default values are constant) is a sentence of the type-system grammar. -/
 theorem C06_print_in_grammar (d : SchemaDoc) (h : WFSchema d) :
     Derivable gql .typeSystemDocument (printSchema d) :=
+  (printSchema_in_grammar d h).derivable
+
+/-- … and the print is its own canonical form (no leading `&` / `|`, no empty description, every
+    description a String token) -/
+theorem C06_print_canonical (d : SchemaDoc) (h : WFSchema d) :
+    Derives gql (.nt .typeSystemDocument) (printSchema d) (printSchema d) :=
   printSchema_in_grammar d h
 
 /-- non-vacuity: `scalar S  extend scalar S @d` is well-formed -/
@@ -175,6 +181,7 @@ theorem C06_merge_is_concat (limit : Nat) (srcs : List (Bool × Bytes)) (d : Sch
     by simpa [SchemaDoc.empty] using h3, by simpa [SchemaDoc.empty] using h4, by simpa [SchemaDoc.empty] using h5⟩
 
 #print axioms C06_print_in_grammar
+#print axioms C06_print_canonical
 #print axioms C06_recognise_sound
 #print axioms C06_canonical_sound
 #print axioms C06_reject_classes_empty_document
